@@ -153,6 +153,8 @@ fn alphabet() -> Vec<ScaledQuantity> {
         // known units that are not in any best-unit list, met before and after a best unit of the same quantity
         q(2.0, Some("dl")),
         q(1.0, Some("pint")),
+        // above 2^32 with a fractional part, in a unit with fractions enabled and no whole-part limit
+        q(5000000000.5, Some("lb")),
     ]
 }
 
@@ -615,7 +617,7 @@ pub fn replay(case: &J) -> Vec<Violation> {
 
 pub fn run(tier: Tier) {
     let c = ctx();
-    c.set_rule("(a) explicit-state BFS (stateright) over the real GroupedQuantity: actions add(one of 21 quantities: two units per physical quantity across systems, two known units outside every best-unit list (dl, pint), two unknown units, unit-less, numbers, ranges, fractions, text with and without unit, time, temperature), merge(one of 6 prebuilt groups), fit; states de-duplicated by a canonical serialisation of the whole group + reference sums + depth; invariant in every state: per physical quantity / unknown unit / unit-less the total range equals the reference sum, every text value kept verbatim with multiplicity, len/iter/into_vec agree; (b) every recipe of <= n ingredient components over 17 atoms (definition, components-mode definition, reference, other-case reference, hidden, optional, new, alias, recipe path, no quantity, intermediate reference) and every sequence of <= 3 such recipes through group_ingredients and IngredientList::add_recipe, compared with a reference semantics (each quantity once, under its definition, recipe order, hidden / reference-only not listed), scaled by 1 and 3; (c) every such list x every aisle configuration over names {a,b,c,z} with synonyms and 1-2 categories: categorize conserves the totals; non-trivial = states / valid recipe sequences; distinct = canonical states, distinct sequences");
+    c.set_rule("(a) explicit-state BFS (stateright) over the real GroupedQuantity: actions add(one of 22 quantities: two units per physical quantity across systems, two known units outside every best-unit list (dl, pint), two unknown units, unit-less, numbers, ranges, fractions, text with and without unit, time, temperature), merge(one of 6 prebuilt groups), fit; states de-duplicated by a canonical serialisation of the whole group + reference sums + depth; invariant in every state: per physical quantity / unknown unit / unit-less the total range equals the reference sum, every text value kept verbatim with multiplicity, len/iter/into_vec agree; (b) every recipe of <= n ingredient components over 17 atoms (definition, components-mode definition, reference, other-case reference, hidden, optional, new, alias, recipe path, no quantity, intermediate reference) and every sequence of <= 3 such recipes through group_ingredients and IngredientList::add_recipe, compared with a reference semantics (each quantity once, under its definition, recipe order, hidden / reference-only not listed), scaled by 1 and 3; (c) every such list x every aisle configuration over names {a,b,c,z} with synonyms and 1-2 categories: categorize conserves the totals; non-trivial = states / valid recipe sequences; distinct = canonical states, distinct sequences");
     let depth = tier.pick(5, 6);
     let (unique, total) = run_group_model(depth);
     c.states.fetch_add(unique as u64, std::sync::atomic::Ordering::Relaxed);
